@@ -34,8 +34,8 @@ extern MPT_STRUCT(node) *mpt_node_append(MPT_STRUCT(node) *old, const MPT_STRUCT
 	}
 	/* one level up */
 	if (currop == MPT_PARSEFLAG(SectEnd)) {
-		/* last operation was non-empty section */
-		if (old && (prevop & MPT_PARSEFLAG(SectEnd))) {
+		/* last operation was anything but the start of this section */
+		if (old && prevop && (prevop & 0x3) != MPT_PARSEFLAG(Section)) {
 			return old->parent;
 		}
 		return old;
@@ -70,11 +70,11 @@ extern MPT_STRUCT(node) *mpt_node_append(MPT_STRUCT(node) *old, const MPT_STRUCT
 		mpt_node_destroy(conf);
 		return 0;
 	}
-	/* previous element was section -> insert */
-	if (prevop && !(prevop & MPT_PARSEFLAG(SectEnd))) {
+	/* previous element was section start -> insert */
+	if ((prevop & 0x3) == MPT_PARSEFLAG(Section)) {
 		mpt_gnode_insert(old, 0, conf);
 	}
-	/* no previous or previous element was option -> append */
+	/* no previous or previous element was option, data or section end -> append */
 	else {
 		mpt_gnode_add(old, 0, conf);
 	}
